@@ -130,6 +130,27 @@ struct RawConn
   {
     if (fd >= 0) ::shutdown(fd, SHUT_WR);
   }
+  /// abortive close: RST instead of FIN (SO_LINGER 0)
+  void resetNow()
+  {
+    if (fd < 0) return;
+    linger lg{1, 0};
+    ::setsockopt(fd, SOL_SOCKET, SO_LINGER, &lg, sizeof lg);
+    closeNow();
+  }
+  /// forget the old connection completely (the object is reused for the next one)
+  void reset()
+  {
+    closeNow();
+    peerFd = -1;
+    rx.clear();
+    eof = false;
+    resetSeen = false;
+    segmentsWritten = barriersExact = 0;
+    sentTotal = 0;
+  }
+  /// every segment written so far was followed by an exact, completed read barrier
+  bool allBarriersExact() const { return peerFd >= 0 && barriersExact == segmentsWritten; }
 
   bool writeAll(const char *p, std::size_t n)
   {
